@@ -51,6 +51,7 @@ type Prog struct {
 	Desugared int // tagless switches rewritten as if-chains (desugar.go)
 	Unrolled  int // loops over written-out tables rewritten as straight-line code (unroll.go)
 	Clamps    int // branch-written clamps and saturating subtractions rewritten with min/max (desugar.go)
+	SplitCmps int // ordering tests against a min/max split into the tests against its operands (desugar_cmp.go)
 
 	ssaOnce sync.Once
 	SSA     *ssa.Program
@@ -224,6 +225,7 @@ func load(o loadOpts) (*Prog, error) {
 	}
 	p.Unrolled = desugarTableLoops(p)
 	p.Clamps = desugarClamps(p)
+	p.SplitCmps = desugarMinMaxCmps(p)
 	return p, nil
 }
 
